@@ -104,7 +104,8 @@ more('C02', 'statement-order rule on the two recording paths, nested-mutation co
 more('C04', 'dominance rule on the apply_unitary protocol (no give-up after a partial in-place sequence; defer vs refuse)',
      'C04.b3 apply_unitaries on the caller args only after all operations are known to be unitary, a missing decomposition defers to the next strategy; C04.c decompositions == matrices')
 more('C05', 'cache-dependency coherence of derived circuits', 'C05.i a circuit built from another inherits a memoised summary only if no field it is computed from changed')
-more('C06', 'required isinstance guard where measurement semantics justify a rewrite', 'C06.i facts collected under is_measurement(op) to alter other operations also require MeasurementGate')
+more('C06', 'required isinstance guard where measurement semantics justify a rewrite; must-pass-through (every path of a rebuild loop re-emits the operation) with a tabled, re-checked set of drop exits',
+     'C06.i facts collected under is_measurement(op) to alter other operations also require MeasurementGate; C06.j loops that rebuild a moment/circuit operation by operation carry every operation over or raise')
 more('C07', 'interpretation of the Pasqal distance function and of the Sycamore known-gate dispatcher on model values',
      'C07.f device distance == Euclidean distance for every qubit kind; C07.g tabulated Sycamore decompositions only for exponents equal to the tabulated gate up to phase; '
      'C07.e body-for-op substitution guarded by the transformer\'s own tag')
